@@ -248,6 +248,15 @@ var pruneCtx sync.Map
 // saved root and requires exactly the model content, by the trie's own Iterate and
 // lookups and by the harness walker over the raw bytes.
 func CheckReadable(dir string, sv Saved) error {
+	// the raw walk goes first: it stops at absurd depths, whereas the trie's own Iterate recurses without bound on a store
+	// whose records sit under foreign keys (a cycle ends the process with a stack overflow, which decides nothing)
+	w := refmpt.WalkFrom(sv.Root, mptkit.GetterOfRaw(dir), false)
+	if len(w.Missing) > 0 || len(w.Problems) > 0 {
+		return fmt.Errorf("round %d root %x: raw walk: %d missing, problems %v", sv.Version, sv.Root, len(w.Missing), w.Problems)
+	}
+	if !mptkit.EqualContent(w.Content, sv.Model) {
+		return fmt.Errorf("round %d: raw walk content %s, want %s", sv.Version, mptkit.Show(w.Content), mptkit.Show(sv.Model))
+	}
 	pndb := mptkit.Reopen(dir)
 	mpt := mptkit.NewTrie(pndb, sv.Version, sv.Root)
 	got, err := mptkit.Content(mpt)
@@ -262,13 +271,6 @@ func CheckReadable(dir string, sv Saved) error {
 		if err != nil || string(v) != string(want) {
 			return fmt.Errorf("round %d: lookup %q = %x, %v", sv.Version, p, v, err)
 		}
-	}
-	w := refmpt.WalkFrom(sv.Root, mptkit.GetterOfRaw(dir), false)
-	if len(w.Missing) > 0 || len(w.Problems) > 0 {
-		return fmt.Errorf("round %d root %x: raw walk: %d missing, problems %v", sv.Version, sv.Root, len(w.Missing), w.Problems)
-	}
-	if !mptkit.EqualContent(w.Content, sv.Model) {
-		return fmt.Errorf("round %d: raw walk content %s, want %s", sv.Version, mptkit.Show(w.Content), mptkit.Show(sv.Model))
 	}
 	return nil
 }
